@@ -271,4 +271,6 @@ func genC06(w *bufio.Writer, rng *hx.Rng, tier string) {
 		}
 		c06Line(w, max, rng.Bool(), rng.Chance(1, 6), base, buf, apps)
 	}
+	// the worker in front of the real Pipeline.In (c06pipe.go)
+	genC06Pipe(w, rng, tier)
 }
